@@ -39,7 +39,7 @@ theorem writeFromRoot_whole (f0attrs : Attrs) (t : Tree) (h : t.rootedWF CT DT =
     have hroot : ({ i with gtype := "root" } : NodeInfo) = i := by cases i; simp_all
     simp only [writeNodeFull] at hw
     simp only [Tree.name, Tree.info] at hv
-    unfold writeFromRoot
+    unfold writeFromRoot rootFilled
     simp only [Tree.info, hroot, writeTree, Tree.kids, hw, bind, Except.bind, Tree.name]
     rw [createIn_fresh _ _ _ _ hv (by simp [alookup])]
     simp
